@@ -761,6 +761,8 @@ coap_path_into_optlist(const uint8_t *s, size_t length, coap_option_num_t optnum
       default:
         /* add segment */
         optlist = coap_new_optlist(optnum, s - p, p);
+        if (!optlist)
+          return 0;
         coap_replace_percents(optlist);
         if (!coap_insert_optlist(optlist_chain, optlist)) {
           return 0;
@@ -787,6 +789,8 @@ coap_path_into_optlist(const uint8_t *s, size_t length, coap_option_num_t optnum
   default:
     /* add segment */
     optlist = coap_new_optlist(optnum, s - p, p);
+    if (!optlist)
+      return 0;
     coap_replace_percents(optlist);
     if (!coap_insert_optlist(optlist_chain, optlist)) {
       return 0;
